@@ -572,8 +572,10 @@ func (g *Gen) SeedAccounts() {
 		confirmed := g.R.Intn(5) != 0
 		var otps, rec []string
 		totpS, sms := "", ""
-		if g.R.Intn(3) == 0 {
-			otps = []string{fmt.Sprintf("0000000%d-11111111-22222222-33333333", i)}
+		if g.R.Intn(2) == 0 {
+			for k := 0; k <= g.R.Intn(3); k++ {
+				otps = append(otps, fmt.Sprintf("0000000%d-1111111%d-22222222-33333333", i, k))
+			}
 		}
 		switch g.R.Intn(5) {
 		case 0, 1:
